@@ -76,6 +76,7 @@ type StateSpec struct {
 type Op struct {
 	Kind    string     `json:"kind"`
 	Off     uint64     `json:"off,omitempty"`
+	Low     bool       `json:"low,omitempty"` // use the height truncated to 32 bits instead (aliasing probe)
 	Abs     *uint64    `json:"abs,omitempty"`
 	Blk     *BlockSpec `json:"blk,omitempty"`
 	St      *StateSpec `json:"st,omitempty"`
@@ -84,6 +85,18 @@ type Op struct {
 	HashRef int        `json:"hash_ref,omitempty"`
 	Val     []byte     `json:"val,omitempty"`
 	CrashK  int        `json:"crash_k"` // -1 = no crash
+}
+
+// heightOf resolves the height a save / setheight step refers to.
+func (sc *Scenario) heightOf(op Op) uint64 {
+	if op.Abs != nil {
+		return *op.Abs
+	}
+	h := sc.Base + op.Off
+	if op.Low {
+		h = uint64(uint32(h))
+	}
+	return h
 }
 
 // Scenario is a history plus the extra (never written) things probed by every read sweep.
@@ -233,7 +246,7 @@ func (sc *Scenario) resolve(op Op, m *model) resolved {
 	switch op.Kind {
 	case "save", "resave":
 		r.kind = "save"
-		r.height = sc.Base + op.Off
+		r.height = sc.heightOf(op)
 		spec := *op.Blk
 		if op.Kind == "resave" {
 			if cur, ok := m.byHeight[r.height]; ok {
@@ -256,10 +269,7 @@ func (sc *Scenario) resolve(op Op, m *model) resolved {
 			}
 		}
 	case "setheight":
-		r.height = sc.Base + op.Off
-		if op.Abs != nil {
-			r.height = *op.Abs
-		}
+		r.height = sc.heightOf(op)
 	case "state":
 		r.state = op.St.state()
 	case "meta":
@@ -354,14 +364,8 @@ func (sc *Scenario) universe() *universe {
 	}
 	for _, op := range sc.Ops {
 		switch op.Kind {
-		case "save", "resave":
-			hs[sc.Base+op.Off] = true
-		case "setheight":
-			h := sc.Base + op.Off
-			if op.Abs != nil {
-				h = *op.Abs
-			}
-			hs[h] = true
+		case "save", "resave", "setheight":
+			hs[sc.heightOf(op)] = true
 		case "meta":
 			if op.KeyKind != "trick" && op.KeyKind != "hashref" {
 				ks[op.Key] = true
@@ -370,6 +374,7 @@ func (sc *Scenario) universe() *universe {
 	}
 	for i := uint64(0); i < 7; i++ {
 		hs[sc.Base+i] = true
+		hs[uint64(uint32(sc.Base+i))] = true
 	}
 	for _, h := range sc.ProbeHeights {
 		hs[h] = true
@@ -585,11 +590,12 @@ func nodeKeys(base uint64) []string {
 	return out
 }
 
-// shapeKeys are well-formed keys of the same shapes (a letter, letter/number[/letter]) that
-// happen to spell the prefixes of the other record kinds.
+// shapeKeys are well-formed keys of the same shapes (a letter, a number, letter/number[/letter])
+// that happen to spell the prefixes or key segments of the other record kinds.
 func shapeKeys(base uint64) []string {
 	out := []string{"h", "c", "s", "m", "i", "t", "rhb"}
 	for i := uint64(0); i < 3; i++ {
+		out = append(out, fmt.Sprintf("%d", base+i))
 		for _, p := range []string{"h", "d", "c", "m"} {
 			out = append(out, fmt.Sprintf("%s/%d", p, base+i))
 		}
